@@ -347,7 +347,7 @@ def add_steps(reg, uid_ref, entries, res):
     for kind, node, prim, r in entries:
         if r is None:
             continue
-        if kind == 'node':       # add_as_child asked get_node(is_primary=False)
+        if kind == 'node' and prim is False:       # add_as_child asked get_node(is_primary=False)
             ps = [ref_of(reg, uid_ref, p) for p in r.nodes_from]
             kids = [ref_of(reg, uid_ref, m) for m in res.nodes if any(p is r for p in m.nodes_from)]
             v = ps[0] if ps else 0
@@ -360,6 +360,8 @@ def add_steps(reg, uid_ref, entries, res):
 
 
 def tree_choice(reg, entries, gb, ga, parents_b):
+    # get_node() calls made inside the repository's random graph factory carry no is_primary flag
+    entries = [e for e in entries if e[0] == 'tree' or (e[0] == 'node' and e[2] is True)]
     last = entries[-1] if entries else None
     removed = [r for r in gb if r not in ga]
     if last is None or last[3] is None or not removed:
@@ -399,7 +401,7 @@ def infer_mutation(spec, reg, fac, adv, gb, hb, ga, ha, parents_b, uid_ref, res)
     if fn == 'tree_growth':
         return ['(MTree %s)' % tree_choice(reg, log, gb, ga, parents_b)]
     if fn in ('growth', 'local_growth'):
-        if any(k == 'parent' or (k == 'node' and not prim) for k, node, prim, r in log) or not log:
+        if any(k == 'parent' or (k == 'node' and prim is False) for k, node, prim, r in log) or not log:
             return ['(MGrowth (GAdd %s))' % add_steps(reg, uid_ref, log, res)]
         return ['(MGrowth (GTree %s))' % tree_choice(reg, log, gb, ga, parents_b)]
     if fn == 'reduce':
@@ -576,11 +578,12 @@ CX_FN = 'fun c => match c with (kn, s, cs, o) => cx_check kn s cs o end'
 
 
 def evaluate(ctx, group, kind, specs):
-    terms, metas = [], []
+    terms, metas, term_of = [], [], {}
     for spec in specs:
         term, info = (run_mutation_case if kind == 'mut' else run_crossover_case)(spec)
         terms.append(term)
         metas.append((spec, info))
+        term_of[id(spec)] = term
     res = ctx.coq_cases(group, REQ, MUT_FN if kind == 'mut' else CX_FN, terms, 3, shard=250, preamble=PRE)
     for (spec, info), (ag, ho, dom) in zip(metas, res):
         modelled = info.get('cands') is not None and not (kind == 'cx' and spec['fn'] == 'subgraph_crossover')
@@ -588,6 +591,8 @@ def evaluate(ctx, group, kind, specs):
                   nodes=info['n'], changed=info['changed'], raised=bool(info['raised']),
                   modelled=modelled, **({'relation': spec['rel']} if kind == 'cx' else {'advice': spec['advice']}))
         case = {'kind': kind, 'spec': spec, 'info': {k: v for k, v in info.items()}}
+        if not (ag and ho):
+            case['coq_term'] = term_of[id(spec)]
         if not dom:
             ctx.error(group, 'generated input outside the domain (not a non-empty well-formed DAG): %r' % (spec,))
         if not ho:
